@@ -119,6 +119,11 @@ def rules(model, rep):
     chk = [x for x in ast.walk(fn) if isinstance(x, ast.If) and "isinstance" in ast.unparse(x.test) and "Source" in ast.unparse(x.test) and any(isinstance(b, ast.Raise) for b in x.body)]
     good = bool(chk) and chk[0].lineno < first_write and ast.unparse(chk[0].test).replace(" ", "") == "notisinstance(self._g[%s],Source)" % PIDX \
         and any(isinstance(b, ast.Raise) and "ValueError" in ast.unparse(b) for b in chk[0].body) and chk[0].lineno < probe.lineno
+    known = [x for x in ast.walk(fn) if isinstance(x, ast.Expr) and isinstance(x.value, ast.Call) and ast.unparse(x.value.func) in ("self._chk_parent", "self._chk_comp")
+             and x.value.args and ast.unparse(x.value.args[0]) == "battery" and x.lineno < pidx_a.lineno]
+    if not known:
+        ok = False
+        rep.violation("R4", construct, "%s:%d" % (rel, fn.lineno), "an unknown battery name is not rejected with ValueError before its index is used", "unknown battery")
     if not good:
         ok = False
         rep.violation("R4", construct, "%s:%d" % (rel, fn.lineno), "a battery that is not a Source is not rejected with ValueError before the probe call and the first write", "source check")
